@@ -20,7 +20,8 @@ OBLIGATIONS = ['PGA.Scheme.' + t for t in [
     'C03_distinctSets_relabel', 'C03_remap_depends_on_counts_only', 'C03_descriptors_relabel']] + ['PGA.C03.' + t for t in [
     'C03_aromatize_ring_equiv', 'C03_aromatize_rings_equiv', 'C03_aromatize_rotation_reflection',
     'C03_aromatize_order_partial', 'C03_aromatize_order_full_fails', 'C03_aromatize_update_literal', 'C03_aromatize_relabel', 'C03_relabel_wf', 'C03_embeds_relabel',
-    'C03_decompose_relabel']]
+    'C03_decompose_relabel', 'C03_embeds_ring_presentation', 'C03_decompose_ring_presentation_partial',
+    'C03_decompose_ring_presentation_full_fails']]
 RULE = ('cases = (scheme, molecule, spelling): every molecule of the fixed pools and grown molecules, each written in several '
         'ways (random atom order incl. branch order and ring-closure choices, explicit vs implicit H, Kekule vs aromatic, '
         'molecule object vs SMILES; all atom permutations for <= 5 heavy atoms in the thorough tier), for the nine shipped '
@@ -110,6 +111,9 @@ def aromatize_tie(ctx, spellings):
     for (sp, impl), rep in zip(meta, replies):
         ctx.count('corr_c03.aromatize')
         ctx.count('aromatize_eligible_rings_%d' % sum(rep['eligible']))
+        if sum(rep['eligible']) >= 2:
+            # guard of C03_aromatize_order_partial on graphs where the ring order could matter
+            ctx.count('aromatize_order_guard_%s' % ('holds' if rep['disjoint'] else 'fails(F3 class)'))
         if not (rep['wf'] and rep['bonded']):
             raise common.MachineryError('A-graph: ill-formed graph for %r' % sp)
         if impl['arom'] != rep['arom'] or impl['kinds'] != rep['kinds']:
